@@ -101,8 +101,11 @@ C03_Checks(r) ==
 
 \* ---------------------------------------------------------------- C09
 C09_Checks(r) ==
-  IF ~OutOk(r) \/ ~Has_(r, "twin") THEN {}
-  ELSE {<<"C09.twin." \o k, TRUE, C09_TwinDiff(r.out.ok, r.twin[k]) = {}>> : k \in DOMAIN r.twin}
+  (IF ~OutOk(r) \/ ~Has_(r, "twin") THEN {}
+   ELSE {<<"C09.twin." \o k, TRUE, C09_TwinDiff(r.out.ok, r.twin[k]) = {}>> : k \in DOMAIN r.twin})
+  \* the RECEIVER after the operation (part of its lazily filled state was still open when the operation ran) against its own twin
+  \cup (IF Has_(r, "self_after") /\ Has_(r, "self_after_twin")
+        THEN {<<"C09.twin.receiver", TRUE, C09_TwinDiff(r.self_after, r.self_after_twin) = {}>>} ELSE {})
 
 \* ---------------------------------------------------------------- C17
 C17_Checks(r) ==
@@ -198,6 +201,8 @@ C19_SweepChecks(r) ==
    <<"C19.alloc.fault_points", TRUE, r.exit = 0 => n - 1 >= WriterModel!AllocPoints(r.outlen)>>}
 C19_Checks(r) ==
   IF r.act = "alloc_sweep" THEN C19_SweepChecks(r)
+  \* one child process per boundary input: it exits normally and the compiled result is the pure-Python one
+  ELSE IF r.act = "boundary" THEN {<<"C19.boundary.no_crash", TRUE, r.exit = 0>>, <<"C19.boundary.result", r.exit = 0, r.exit = 0 => r.same>>}
   ELSE IF r.act \in {"alt", "cmp", "cmp3"} THEN {}
   ELSE {<<"C19.exception_class", ~OutOk(r), C19_OutcomeClass(r.out)>>}
        \cup (IF OutOk(r) THEN {<<"C19.accessor_exception_class", TRUE, C19_AccessorsClass(r.out.ok)>>} ELSE {})
@@ -312,7 +317,7 @@ Trig_WithSuffixRequotes(r) ==
        /\ QuoteC(PATH_QUOTER, stem) # stem                                         \* trigger: the raw stem is not quoting-stable
        /\ V(r.outs[1].ok.raw_name) = QuoteC(PATH_QUOTER, stem \o r.args.x)          \* observed = deviant prediction
 Attribution(r) ==
-  IF r.act = "alloc_sweep" THEN {} ELSE
+  IF r.act \in {"alloc_sweep", "boundary", "pair"} THEN {} ELSE
   IF r.act = "alt" THEN (IF Trig_WithSuffixRequotes(r) THEN {"Dev_WithSuffixRequotesRawName"} ELSE {}) ELSE
   IF r.act \in {"cmp", "cmp3"} THEN (IF r.act = "cmp" /\ Trig_OrderingOnRawTuple(r) THEN {"Dev_OrderingOnRawTuple"} ELSE {}) ELSE
   (IF OutOk(r) THEN ObsAttribution(r.out.ok) ELSE {})
@@ -380,7 +385,8 @@ TNext ==
         /\ IF failing # {} /\ Prop = "C19" /\ OutOk(r) THEN PrintT(<<"DIFF", r.id, C19_BadAccessors(r.out.ok)>>) ELSE TRUE
         /\ IF failing # {} /\ Prop = "C03" THEN PrintT(<<"DIFF", r.id, C03_DiffFields(r.out.ok, r.reparse)>>) ELSE TRUE
         /\ IF failing # {} /\ Prop = "C09"
-           THEN PrintT(<<"DIFF", r.id, UNION {C09_TwinDiff(r.out.ok, r.twin[k]) : k \in DOMAIN r.twin}>>) ELSE TRUE
+           THEN PrintT(<<"DIFF", r.id, (IF OutOk(r) /\ Has_(r, "twin") THEN UNION {C09_TwinDiff(r.out.ok, r.twin[k]) : k \in DOMAIN r.twin} ELSE {})
+                                       \cup (IF Has_(r, "self_after") /\ Has_(r, "self_after_twin") THEN C09_TwinDiff(r.self_after, r.self_after_twin) ELSE {})>>) ELSE TRUE
         /\ LET ag == Agreement(r) IN
            /\ IF ag = "drift" THEN PrintT(<<"DRIFT", r.id>>) ELSE TRUE
            /\ TLCSet(1, [n |-> TLCGet(1).n + 1,
